@@ -2,4 +2,7 @@
 let table : (string * (Model.z list -> Model.z list)) list = [
   ("retry", Model.run_retry);
   ("canretry", Model.run_canretry);
+  ("msg_enc", Model.run_msg_enc);
+  ("msg_dec", Model.run_msg_dec);
+  ("frame_in", Model.run_frame_in);
 ]
